@@ -15,7 +15,7 @@ LEVEL = 'exploration'
 TECHNIQUE = ('metamorphic relation under Hypothesis-drawn key permutations at every depth (cost, pairing signature, '
              'self-equality) plus element-swap relation for lists')
 RULE = ("Cases: a pair (a, b) from the C01 generator x dict strategy x list-edit mode, plus permuted copies a2, b2 in "
-        "which the insertion order of every mapping at every depth is redrawn with st.permutations, plus (when a has a "
+        "which the insertion order of every mapping at every depth is redrawn with st.permutations (one case in six uses mappings with int and float keys, as YAML / pickle / Python-object inputs have them), plus (when a has a "
         "list with two canonically unequal elements) a copy of a with those two elements swapped. Oracle: cost(a,b) = "
         "cost(a2,b2); the pairing signature (who is paired / removed / inserted with which cost, order-insensitive "
         "inside mappings) is identical; cost(a,a2) = 0 and the two trees compare equal; cost(a, swapped a) > 0. "
@@ -33,11 +33,41 @@ SHRINK = {'enums': {'ds': 'auto', 'le': 'on'}}
 
 
 def valid(case):
-    return strict(case['a']) == strict(case['a2']) and strict(case['b']) == strict(case['b2'])
+    return strict(decode_pairs(case['a'])) == strict(decode_pairs(case['a2'])) and \
+        strict(decode_pairs(case['b'])) == strict(decode_pairs(case['b2']))
+
+
+def decode_pairs(doc):
+    """{'__pairs__': [[key, value], ...]} -> dict with (possibly non-string) keys in that insertion order"""
+    if isinstance(doc, dict):
+        if set(doc) == {'__pairs__'}:
+            return {k: decode_pairs(v) for k, v in doc['__pairs__']}
+        return {k: decode_pairs(v) for k, v in doc.items()}
+    if isinstance(doc, list):
+        return [decode_pairs(x) for x in doc]
+    return doc
+
+
+@st.composite
+def numeric_key_cases(draw):
+    """mappings whose keys are ints and floats (YAML / pickle / Python objects have them): ordering between the key types
+    must still be canonical; values are such that several key pairings tie in cost"""
+    kpool = [1, 2, 10, 10.5, 3.5, 20, 2.25, 100, 7]
+    vals = st.sampled_from([1, 'x', 'x', 5])
+    ka = draw(st.lists(st.sampled_from(kpool), min_size=2, max_size=4, unique=True))
+    kb = draw(st.lists(st.sampled_from(kpool), min_size=1, max_size=4, unique=True))
+    a = {'__pairs__': [[k, draw(vals)] for k in ka]}
+    b = {'__pairs__': [[k, draw(vals)] for k in kb]}
+    a2 = {'__pairs__': draw(st.permutations(a['__pairs__']))}
+    b2 = {'__pairs__': draw(st.permutations(b['__pairs__']))}
+    ds = draw(st.sampled_from(common.DS))
+    return {'a': a, 'b': b, 'a2': a2, 'b2': b2, 'swapped': None, 'ds': ds, 'le': 'on', 'pairs': True}
 
 
 @st.composite
 def cases(draw, max_leaves, max_width):
+    if draw(st.integers(0, 5)) == 0:
+        return draw(numeric_key_cases())
     a, b = draw(gen.doc_pairs(max_leaves, max_width))
     ds, le = draw(gen.options)
     a2, b2 = shuffled(draw, a), shuffled(draw, b)
@@ -86,7 +116,7 @@ def run(doc_a, doc_b, opts):
 def check(case):
     out = Outcome()
     opts = common.build_options(case.get('ds', 'auto'), case.get('le', 'on'))
-    a, b, a2, b2 = case['a'], case['b'], case['a2'], case['b2']
+    a, b, a2, b2 = (decode_pairs(case[k]) for k in ('a', 'b', 'a2', 'b2'))
     if strict(a) != strict(a2) or strict(b) != strict(b2):
         out.skipped = 'not-a-permutation'
         return out
